@@ -53,6 +53,7 @@ func init() {
 		syncFn := func(name string) *ssa.Function { return p.Func("sync", "Synchronizer", name) }
 
 		c06SourcePassthrough(c)
+		c06FetchedAfterRevert(c)
 		// (no-underflow) heights are uint64: `remoteHeight - 1` and the like in the reorg walk-back must be guarded against 0 —
 		// a wrapped "last possibly valid height" makes the revert task ask the source for heights it does not have and give up,
 		// on every retry (defect F28: the source's chain is a single, different block 0).
@@ -844,5 +845,34 @@ func c06SourcePassthrough(c *Ctx) {
 	}
 	if n == 0 {
 		c.und("source-passthrough", "feederGatewayDataSource", "", "no success return found")
+	}
+}
+
+// c06FetchedAfterRevert: (pipeline-only) a block enters verification (and from there the store task) only through the fetch
+// pipeline: verifierTask is called only from the literal that fetcherTask hands to the verifier stream. What the data source
+// downloads for a block depends on the head at fetch time (class definitions the head already has are left out); a block kept
+// from before a revert and pushed through verifierTask afterwards was fetched against a head that no longer exists. Seeded
+// change C04-K re-uses the block fetched for the fork-point check: a Cairo-0 class declared on both forks is missing after the
+// reorg although head and state root match a node that synced the new fork only.
+func c06FetchedAfterRevert(c *Ctx) {
+	p := c.P
+	vt := p.Func("sync", "Synchronizer", "verifierTask")
+	ft := p.Func("sync", "Synchronizer", "fetcherTask")
+	if vt == nil || ft == nil {
+		c.und("pipeline-only", "Synchronizer.verifierTask", "", "anchor not found")
+		return
+	}
+	n := 0
+	for _, s := range p.callersOf(vt) {
+		if strings.HasSuffix(p.Pos(s.Pos()), "_test.go") {
+			continue
+		}
+		n++
+		caller := rootOf(s.Fn)
+		c.check(caller == ft || p.calledOnlyFromAny(caller, map[string]bool{"fetcherTask": true}, 0), "pipeline-only", "verifierTask ← "+qname(caller), p.Pos(s.Pos()), "blocks are verified only as they come out of the fetch pipeline",
+			"verifierTask is called from "+qname(caller)+" with a block that did not come out of the fetch pipeline at this point: what was downloaded for it (which class definitions) was decided against an earlier head")
+	}
+	if n == 0 {
+		c.und("pipeline-only", "verifierTask callers", "", "no caller found")
 	}
 }
